@@ -9,7 +9,7 @@ rng = R.rng
 NB, TAPS, FL = 32, 4, 64
 
 
-def run_case(asc, sc, nc, npol, off_frac, chan_pick, drift_ch, case):
+def run_case(asc, sc, nc, npol, off_frac, chan_pick, drift_ch, case, nbits=8):
     sr = 32e6
     fch1 = 1.0e9
     src = stg.voltage.Antenna(sample_rate=sr, fch1=fch1, ascending=asc, num_pols=npol, seed=case)
@@ -23,11 +23,11 @@ def run_case(asc, sc, nc, npol, off_frac, chan_pick, drift_ch, case):
     f_tone = fch1 + coarse * cbw + (kbin + off_frac) * df
     T = TAPS * FL * 2
     spb = T
-    bps = 2 * npol
+    bps = 2 * npol * nbits // 8
     for s in src.streams:
         s.add_constant_signal(f_start=f_tone, drift_rate=drift_ch * abs(df) / (spb * NB / sr), level=1.0)
     be = stg.voltage.RawVoltageBackend(src, digitizer=stg.voltage.RealQuantizer(target_fwhm=32, num_bits=8), filterbank=stg.voltage.PolyphaseFilterbank(num_taps=TAPS, num_branches=NB),
-                                       requantizer=stg.voltage.ComplexQuantizer(target_fwhm=32, num_bits=8), start_chan=sc, num_chans=nc, block_size=spb * nc * bps,
+                                       requantizer=stg.voltage.ComplexQuantizer(target_fwhm=32 if nbits == 8 else 6, num_bits=nbits), start_chan=sc, num_chans=nc, block_size=spb * nc * bps,
                                        blocks_per_file=2, num_subblocks=3)
     stem = os.path.join(R.tmp, f't{case}')
     be.record(stem, num_blocks=1, length_mode='num_blocks', header_dict={'DIRECTIO': rng.choice([0, 1])}, load_template=False, verbose=False)
@@ -43,8 +43,15 @@ def run_case(asc, sc, nc, npol, off_frac, chan_pick, drift_ch, case):
     hs = 80 * (n + 1)
     if int(h.get('DIRECTIO', 0)) != 0:
         hs = (hs + 511) // 512 * 512
-    d = np.frombuffer(raw[hs: hs + int(h['BLOCSIZE'])], dtype=np.int8).reshape(nc, -1).astype(float)
-    x = d[:, 0::2 * npol] + 1j * d[:, 1::2 * npol]
+    if nbits == 8:
+        d = np.frombuffer(raw[hs: hs + int(h['BLOCSIZE'])], dtype=np.int8).reshape(nc, -1).astype(float)
+        x = d[:, 0::2 * npol] + 1j * d[:, 1::2 * npol]
+    else:
+        # GUPPI 4-bit: one byte per complex sample, real part in the high nibble, imaginary part in the low nibble (two's complement)
+        u = np.frombuffer(raw[hs: hs + int(h['BLOCSIZE'])], dtype=np.uint8).reshape(nc, -1).astype(int)
+        hi_, lo_ = u >> 4, u & 15
+        hi_, lo_ = np.where(hi_ >= 8, hi_ - 16, hi_), np.where(lo_ >= 8, lo_ - 16, lo_)
+        x = (hi_[:, 0::npol] + 1j * lo_[:, 0::npol]).astype(complex)
     spec = np.abs(np.fft.fftshift(np.fft.fft(x[:, :FL * (x.shape[1] // FL)].reshape(nc, -1, FL), axis=2), axes=2)) ** 2
     spec = spec.sum(axis=1)
     c_peak, b_peak = np.unravel_index(np.argmax(spec), spec.shape)
@@ -63,8 +70,9 @@ for it in range(R.n(16, 300)):
     npol = rng.choice([1, 2])
     off = rng.choice([0.0, 0.0, 0.3, -0.4])
     pick = rng.randint(1 if sc == 0 else 0, nc - 1)     # coarse channel 0 straddles DC (tone and mirror coincide): excluded by the property
-    c = dict(asc=asc, start_chan=sc, num_chans=nc, npol=npol, off_bin=off, channel=pick)
-    r = R.guard('pipeline', c, lambda: run_case(asc, sc, nc, npol, off, pick, 0.0, case))
+    nbits = 4 if it % 3 == 2 else 8
+    c = dict(asc=asc, start_chan=sc, num_chans=nc, npol=npol, off_bin=off, channel=pick, num_bits=nbits)
+    r = R.guard('pipeline', c, lambda: run_case(asc, sc, nc, npol, off, pick, 0.0, case, nbits))
     if r is None:
         continue
     okp, dist, peak, info = r
